@@ -377,7 +377,16 @@ def _ext_call(ev, dotted, args, kwargs, fr, node):
         if short in arity and len(args) > arity[short]:
             return T.opaque('extra argument(s) of builtin %s are not modelled' % short)
         if short == 'len':
-            return T.len_(args[0])
+            r = T.len_(args[0])
+            if T.is_op(r, 'LEN'):
+                # a length the path has already pinned (`if len(chunk) != n: raise` in front): that value
+                for f_ in fr.facts:
+                    if T.is_op(f_, 'EQ') and len(f_) == 4:
+                        if f_[2] == r:
+                            return f_[3]
+                        if f_[3] == r:
+                            return f_[2]
+            return r
         if short == 'slice' and 1 <= len(args) <= 3 and not kwargs:
             a = list(args)
             lo, hi, st = (T.NONE, a[0], T.NONE) if len(a) == 1 else (a[0], a[1], a[2] if len(a) == 3 else T.NONE)
